@@ -162,6 +162,11 @@ func scanEngine(prop, tier string, rng *rand.Rand, replay []json.RawMessage) (*E
 				excluded[x]++
 				continue
 			}
+			if os.Getenv("VERIF_TRACE") != "" {
+				fmt.Fprintf(os.Stderr, "case %d: %s\n", len(res.Cases), c.Single.Note)
+				b, _ := json.Marshal([]*scanSpec{c.Single})
+				os.WriteFile(os.Getenv("VERIF_TRACE"), b, 0o644)
+			}
 			obs, err := runScanSpec(c.Single)
 			if err != nil {
 				return nil, fmt.Errorf("spec %q: %v", c.Single.Note, err)
@@ -229,6 +234,12 @@ func sortedStrings(m map[string]bool) []string {
 // scan matches, or "".  Such scans are dropped from the default streams; VERIF_GEN_INCLUDE=<name> keeps them.
 func excludedShape(prop string, s *scanSpec) string {
 	for _, g := range s.Groups {
+		// oom_untaint_capacity (every property; a defect of the code, outside the executable model): untaintNewestN allocates
+		// make([]int, 0, n) with n = the requested scale-up delta, which is unbounded: requests / capacity ratios of ~1e9 (a pod
+		// asking for billions of cores, a node reporting one byte of memory) make the process die with "out of memory".
+		if d := roughScaleUpDelta(s, g); d > 5e6 {
+			return "oom_untaint_capacity"
+		}
 		// stale_lock_flag_early_return (C02 only; model and code agree): isLocked is set although the cool-down is over and the
 		// scan leaves through an early return (both empty / node count outside min..max) before scaleUpLock.locked() runs, so the
 		// flag stays set; clause 2 of check_C02_group ("outside the cool-down the lock ends free or freshly armed") fails.
@@ -303,4 +314,83 @@ func excludedShape(prop string, s *scanSpec) string {
 		}
 	}
 	return ""
+}
+
+// roughScaleUpDelta estimates the scale-up delta of the group's scan (float arithmetic, no rounding care): only used to
+// keep absurd worlds that would make untaintNewestN allocate gigabytes out of the default streams.
+func roughScaleUpDelta(s *scanSpec, g groupSpec) float64 {
+	filter := controller.NewPodAffinityFilterFunc(g.Opts.LabelKey, g.Opts.LabelValue)
+	if g.Opts.Name == controller.DefaultNodeGroup {
+		filter = controller.NewPodDefaultFilterFunc()
+	}
+	var reqC, reqM, capC, capM, unt float64
+	tainted := false
+	dry := s.GlobalDry || g.Opts.DryMode
+	var first *resourcePair
+	for _, n := range s.Nodes {
+		if n.Labels[g.Opts.LabelKey] != g.Opts.LabelValue {
+			continue
+		}
+		if first == nil {
+			first = &resourcePair{float64(n.Status.Allocatable.Cpu().MilliValue()), float64(n.Status.Allocatable.Memory().MilliValue())}
+		}
+		switch classOf(n, dry, g.State.TaintTracker, g.State.ForceTracker) {
+		case 0:
+			unt++
+			capC += float64(n.Status.Allocatable.Cpu().MilliValue())
+			capM += float64(n.Status.Allocatable.Memory().MilliValue())
+		case 1:
+			tainted = true
+		}
+	}
+	if !tainted {
+		return 0 // without tainted nodes scaleUpUntaint returns before the allocation
+	}
+	for _, p := range s.Pods {
+		if !filter(p) {
+			continue
+		}
+		for _, c := range p.Spec.Containers {
+			reqC += float64(c.Resources.Requests.Cpu().MilliValue())
+			reqM += float64(c.Resources.Requests.Memory().MilliValue())
+		}
+		for _, c := range p.Spec.InitContainers {
+			reqC += float64(c.Resources.Requests.Cpu().MilliValue())
+			reqM += float64(c.Resources.Requests.Memory().MilliValue())
+		}
+		if p.Spec.Overhead != nil {
+			reqC += float64(p.Spec.Overhead.Cpu().MilliValue())
+			reqM += float64(p.Spec.Overhead.Memory().MilliValue())
+		}
+	}
+	thr := float64(g.Opts.ScaleUpThresholdPercent)
+	if thr <= 0 {
+		thr = 0.01
+	}
+	worst := 0.0
+	ratio := func(r, c float64) float64 {
+		if c <= 0 {
+			return 0
+		}
+		return r / c * 100 / thr
+	}
+	if unt > 0 {
+		worst = unt * maxf(ratio(reqC, capC), ratio(reqM, capM))
+	} else {
+		cc, cm := float64(g.State.CacheCPU), float64(g.State.CacheMem)*1000
+		if first != nil {
+			cc, cm = first.c, first.m
+		}
+		worst = maxf(ratio(reqC, cc), ratio(reqM, cm))
+	}
+	return worst
+}
+
+type resourcePair struct{ c, m float64 }
+
+func maxf(a, b float64) float64 {
+	if a > b {
+		return a
+	}
+	return b
 }
